@@ -248,6 +248,8 @@ def normalize_url(
 
     if infer_redirection:
         url = resolve(url)
+        url = CONTROL_CHARS_RE.sub("", url)
+        url = url.strip()
 
     url = upper_quoted(url)
 
